@@ -164,7 +164,73 @@ def run(chk):
         if i % 30 == 0:
             chk.sample({"source": src, "twin": pylite.render(fn, twin=True, subst=(names[0], "SUBST"))})
     closures(chk, stats)
+    successive_probes(chk, rng)
     chk.cov["oracle"]["twin"] = stats
+
+
+SSRC = '''
+from ptera import tag
+
+def scale(v):
+    x: tag.Seed = v + 1
+    x = x * 3
+    y: tag.Seed = x + 1
+    return (x, y)
+'''
+
+
+def successive_probes(chk, rng):
+    """probes (plain and overriding, by name, by tag, generic) activated ONE AFTER THE OTHER on the same function:
+    each behaves as if it were the first — what an earlier probe made ptera compile must not be reused for a
+    selector that captures more"""
+    import itertools
+    import ptera
+    # (selector, override constant or None, bindings of x it concerns: 1 = the tagged one, 2 = the plain one)
+    probes = [("scale > x:@Seed", None, (1,)), ("scale > x", None, (1, 2)), ("scale > x", 7, (1, 2)),
+              ("scale > x:@Seed", 7, (1,)), ("scale > $v:@Seed", None, (1, 3)), ("scale > y", 5, (3,))]
+
+    def expect(ov, which, v):
+        x1 = v + 1
+        if ov is not None and 1 in which:
+            x1 = ov
+        x2 = x1 * 3
+        if ov is not None and 2 in which:
+            x2 = ov
+        y = x2 + 1
+        if ov is not None and 3 in which:
+            y = ov
+        seen = ([x1] if 1 in which else []) + ([x2] if 2 in which else []) + ([y] if 3 in which else [])
+        return (x2, y), seen
+    orders = list(itertools.permutations(range(len(probes)), 3))
+    if chk.tier == "quick":
+        orders = rng.sample(orders, 30)
+    for order in orders:
+        mod = pyprog.make_module(SSRC, "verif_c04_succ")
+        for pi in order:
+            sel, ov, which = probes[pi]
+            v = rng.randrange(0, 5)
+            want_ret, want_seen = expect(ov, which, v)
+            try:
+                with ptera.probing(sel, env=mod.__dict__, overridable=ov is not None) as pr:
+                    if ov is not None:
+                        pr.override(lambda _d, ov=ov: ov)
+                    with ptera.probing(sel, env=mod.__dict__) as plain:
+                        seen = plain.accum()
+                        ret = mod.scale(v)
+                got_seen = [list(e.values())[0] for e in seen]
+            except Exception as e:
+                ret, got_seen = "%s: %s" % (type(e).__name__, e), None
+            chk.count(("successive", order, pi, v), nontrivial=True)
+            chk.dist("successive probes")
+            if ret != want_ret or got_seen != want_seen:
+                chk.violation("oracle", "after the probes %r on the same function, %r%s: returned %r and a plain probe saw "
+                              "%r; as the first probe it returns %r and the plain probe sees %r" % (
+                                  [probes[q][0] for q in order[:order.index(pi)]], sel,
+                                  "" if ov is None else " overriding with %d" % ov, ret, got_seen, want_ret, want_seen),
+                              {"source": SSRC, "order": [probes[q][0] + ("" if probes[q][1] is None else " := %d" % probes[q][1]) for q in order],
+                               "arg": v})
+                break
+        pyprog.drop_module(mod)
 
 
 def replay(chk, path):
